@@ -355,7 +355,8 @@ func (ss *SpecSet) ParseSpecFile(path, defaultPkg string) {
 					continue
 				}
 				label, body := splitLabel(fs[2])
-				cur.CallAsserts = append(cur.CallAsserts, &CallAssert{Callee: fs[0], Clause: &Clause{Kind: "callsite " + fs[0], Text: body, Expr: parse(l, body), File: path, Line: l.no, Label: label}})
+				props, body := splitProps(body)
+				cur.CallAsserts = append(cur.CallAsserts, &CallAssert{Callee: fs[0], Clause: &Clause{Kind: "callsite " + fs[0], Text: body, Expr: parse(l, body), File: path, Line: l.no, Label: label, Props: props}})
 			case "eval":
 				i := strings.Index(rest, "=")
 				if i < 0 {
